@@ -24,7 +24,9 @@ ENTRIES = [(PROJ, "ProjectiveObject." + m) for m in (
 
 
 def run(ctx):
+    ctx.do(MI.rule_homdiv1)
     ctx.do(P.rule_s1)
+    ctx.do(P.rule_dual1)
     ctx.do(MI.rule_s1u)
     ctx.do(P.rule_s2)
     ctx.do(P.rule_s3)
